@@ -734,9 +734,11 @@ def depth1():
 
 def depth2():
     """every context with one hole holding a depth-1 expression (default fill), the other holes default."""
-    inner = [(cname, b(*fill_of(cname)[:ar])) for cname, ar, b in CTX]
+    inner = [(cname, b(*fill_of(cname)[:ar])) for cname, ar, b in CTX if cname != 'filesnested']
     out = []
     for cname, ar, b in CTX:
+        if cname == 'filesnested':      # (already three brackets deep: kept as a depth-1 statement only)
+            continue
         for h in range(ar):
             for iname, itoks in inner:
                 if cname.startswith('files') and not iname.startswith(('arr', 'call', 'files')):
